@@ -302,6 +302,12 @@ pub fn run_case(c: &Case) -> (Vec<(String, String)>, usize) {
             user.push(UserMap { start: (g.start - 0x1000) as usize, size: (g.end_with_gap - g.start + 0x2000) as usize, name: "/user/containing-first.so".into(), id: (60..=79).collect() });
             user.push(UserMap { start: 0x20_0000, size: 0x1000, name: "/user/low.so".into(), id: vec![3; 16] });
         }
+        // identifiers a caller passes when it does not know the build id: none at all / all zero bytes
+        (6, _) => user.push(UserMap { start: 0x10_0000, size: 0x2000, name: "/user/no-identifier.so".into(), id: vec![] }),
+        (7, Some(g)) => {
+            user.push(UserMap { start: (g.start - 0x1000) as usize, size: (g.end_with_gap - g.start + 0x2000) as usize, name: "/user/containing-zero-identifier.so".into(), id: vec![0; 16] });
+            user.push(UserMap { start: 0x30_0000, size: 0x1000, name: "/user/zero-identifier.so".into(), id: vec![0; 20] });
+        }
         _ => {}
     }
     o.user_mappings = user.clone();
@@ -325,7 +331,7 @@ pub fn run_case(c: &Case) -> (Vec<(String, String)>, usize) {
 fn menu(thorough: bool) -> Vec<Case> {
     let libs = ["libfix_sha1.so", "libfix_8.so", "libfix_none.so", "libfix_zero.so", "libfix_nosoname.so", "lib with space.so", "libnonascii_\u{e9}.so", "libver.so.6.0.32", "libver2.so.3.34.2rc5"];
     let mut v = Vec::new();
-    for user in 0..6u8 {
+    for user in 0..8u8 {
         // each library alone
         for l in libs {
             if !thorough && user >= 2 && l != "libfix_sha1.so" && l != "libfix_none.so" {
@@ -365,7 +371,7 @@ fn menu(thorough: bool) -> Vec<Case> {
 }
 
 pub fn run(ctx: &Ctx, rep: &mut Report) {
-    rep.rule = "menu: 9 fixture libraries (build id sha1 / 8 bytes / none / all-zero, with/without SONAME, names with spaces / non-ASCII / .so.N suffixes) dlopen'ed alone and together, a library unlinked after loading, a library replaced on disk by a different one at the same path with both mapped, whole-file and offset mappings of ELF / non-ELF / truncated / archive-embedded images, each under 6 user-mapping lists (none, disjoint, containing, partially overlapping, two entries in descending / ascending order); a position-dependent (ET_EXEC) main executable intact / unlinked / replaced on disk; plus the puppet binary, libc, ld.so and the vDSO in every case. nontrivial = cases whose expected module list has at least 4 entries".into();
+    rep.rule = "menu: 9 fixture libraries (build id sha1 / 8 bytes / none / all-zero, with/without SONAME, names with spaces / non-ASCII / .so.N suffixes) dlopen'ed alone and together, a library unlinked after loading, a library replaced on disk by a different one at the same path with both mapped, whole-file and offset mappings of ELF / non-ELF / truncated / archive-embedded images, each under 8 user-mapping lists (none, disjoint, containing, partially overlapping, two entries in descending / ascending order, an entry without identifier, entries with all-zero identifiers); a position-dependent (ET_EXEC) main executable intact / unlinked / replaced on disk; plus the puppet binary, libc, ld.so and the vDSO in every case. nontrivial = cases whose expected module list has at least 4 entries".into();
     rep.assume("shapes whose expected treatment the statement leaves open (a non-executable mapping at a non-zero offset) are in the menu only as 'must not produce a wrong module', never as 'must be listed'");
     if let Some(case) = &ctx.replay {
         let Some(c) = Case::from_json(case) else {
